@@ -81,7 +81,7 @@ func Run(c *core.Ctx) {
 		only = &rc
 		c.NontrivialN(2) // a replay runs one program; do not report it as "observed nothing"
 	}
-	nBatches := c.Pick(2, 24)
+	nBatches := c.Pick(2, 96)
 	perBatch := c.Pick(140, 220)
 	nVec := c.Pick(6, 10)
 	if only != nil {
@@ -194,7 +194,7 @@ func Run(c *core.Ctx) {
 	}
 
 	// run batches in parallel (each: templ generate, go build, run)
-	par := 4
+	par := 6
 	if c.Quick() {
 		par = 2
 	}
